@@ -427,7 +427,7 @@ func runC19(r *hk.Run) {
 	r.CaseType = "c19_case"
 	r.CheckFn = "c19_check"
 	r.ShardSize = 100
-	r.Rule = "API programs of up to 25 steps over at most 4 clients (original, clones, clone of clone) and their requests: client- and request-level setters for headers, query/form/path parameters, cookies, middleware, round-trip wrappers (client and transport), retry options, value-typed settings, cookie jars (factory / plain / stored cookies), Clone, R(), Do; after every step every live client emits a probe. Non-trivial: the program clones at least once and applies at least one client-level setter afterwards. Distinct by program text."
+	r.Rule = "API programs of up to 25 steps over at most 4 clients (original, clones, clone of clone) and their requests: client- and request-level setters for headers, query/form/path parameters, cookies, middleware, round-trip wrappers (client and transport), retry options, value-typed settings, cookie jars (factory / plain / stored cookies), Clone, R(), Do; after every step every live client emits a probe. Non-trivial: the program clones at least once and applies at least one client-level setter afterwards. Plus 100 histories of ONE Request object (request-level setters, 2-3 executions with 0..budget scripted 503 answers each, client- and request-level setters in between), replayed by Model/ReExec.v attempt by attempt; non-trivial there: at least two executions. Distinct by program text."
 	rng := hk.NewRand(r.Seed)
 	e := newEnv()
 	defer e.srv.Close()
